@@ -1670,3 +1670,70 @@ func ruleR03_14(w *World, r *Report) {
 		r.Lost("value-conversion functions (create*, Convert*)")
 	}
 }
+
+// R03.15 a put never reports a tombstone as the value it replaced (F49)
+func ruleR03_15(w *World, r *Report) {
+	u := w.Client()
+	r.Rule("R03.15", "the element a put on a Document object reports as replaced is not one that was already deleted: in putCommon the existing element is returned only when it was not a tombstone before it is buried", 1)
+	fn := u.Fn(pOrda, "jsonObject", "putCommon")
+	if fn == nil {
+		r.Lost("jsonObject.putCommon")
+		return
+	}
+	var decide *ssa.Call
+	for _, c := range callsNamed(fn, "putCommonWithTimedType") {
+		decide, _ = c.(*ssa.Call)
+	}
+	funerals := callsNamed(fn, "funeral")
+	if decide == nil || len(funerals) == 0 {
+		r.Lost("putCommon: putCommonWithTimedType and funeral")
+		return
+	}
+	n := 0
+	good := true
+	detail := ""
+	forEachOwnInstr(fn, func(in ssa.Instruction) {
+		ret, ok := in.(*ssa.Return)
+		if !ok || len(ret.Results) != 1 {
+			return
+		}
+		for _, v := range resolvePhisOwn(ret.Results[0]) {
+			if c, isC := v.(*ssa.Const); isC && c.Value == nil {
+				continue
+			}
+			n++
+			paths, okp := reachingLitsOwn(fn, nil, ret)
+			if !okp || len(paths) == 0 {
+				good, detail = false, "too many paths"
+				continue
+			}
+			for _, p := range paths {
+				live := false
+				for _, l := range p {
+					if l.Kind == "call" && calleeName(l.Call) == "isTomb" && !l.Pol {
+						for _, f := range funerals {
+							if instrDominates(l.Call, f.(ssa.Instruction)) {
+								live = true
+							}
+						}
+					}
+					if l.Kind == "bool" && !l.Pol {
+						// the answer of isTomb() kept in a local before the burial
+						if call, isCall := l.X.(*ssa.Call); isCall && calleeName(call) == "isTomb" {
+							for _, f := range funerals {
+								if instrDominates(call, f.(ssa.Instruction)) {
+									live = true
+								}
+							}
+						}
+					}
+				}
+				if !live {
+					good = false
+					detail = "the existing element is returned under " + litsString(p)
+				}
+			}
+		}
+	})
+	r.Check(good && n > 0, "jsonObject.putCommon/replaced value was live", u.Pos(fn.Pos()), "returned only when isTomb() was false before the burial", detail+": a put on a key that had been deleted reports the deleted element as the value it replaced (a plain map, and the Map datatype, report none) (F49)")
+}
